@@ -121,6 +121,9 @@ pub fn install_quiet_panic_hook() {
             .location()
             .map(|l| format!(" at {}:{}", l.file(), l.line()))
             .unwrap_or_default();
+        if std::env::var("VERIF_DEBUG_PANIC").is_ok() {
+            eprintln!("panic: {}{}", msg, loc);
+        }
         PANIC_MSG.with(|m| *m.borrow_mut() = format!("{}{}", msg, loc));
     }));
 }
@@ -832,6 +835,468 @@ fn run_leaf_inner(
         if heavy {
             let files: Vec<String> = list_dir(dir).into_iter().map(|f| f.0).collect();
             stats.state(&(hash_of(&model_obs(&run.model)), files, cum_bytes % FILE as u64));
+        }
+    }
+    Ok(())
+}
+
+// ---------------------------------------------------------------------------------------------
+// C14: lock-step over policy configurations (differential, no model verdict)
+
+pub const C14_CONFIGS: [PolicyCfg; 7] = [
+    PolicyCfg::Default,
+    PolicyCfg::AlwaysFsync,
+    PolicyCfg::DoNothing,
+    PolicyCfg::DelayNeverFlush,
+    PolicyCfg::DelayExpiredFlush,
+    PolicyCfg::DelayExpiredFsync,
+    PolicyCfg::DelayAltFlush,
+];
+
+struct PolicyRun {
+    outcomes: Vec<Outcome>,
+    obs: Vec<Obs>,
+    after_restart: Obs,
+}
+
+fn run_under_policy(dir: &std::path::Path, policy: PolicyCfg, cops: &[COp]) -> Result<PolicyRun, String> {
+    reset_hooks(0, false);
+    let mut subject = Subject::open(dir, policy).map_err(|e| format!("open failed: {e}"))?;
+    let mut outcomes = vec![];
+    let mut obs = vec![];
+    for cop in cops {
+        let (got, _) = subject.apply(cop);
+        outcomes.push(got);
+        obs.push(subject.observe());
+    }
+    drop(subject);
+    let log = open_log(dir, policy).map_err(|e| format!("reopen failed: {e}"))?;
+    let after_restart = observe(&log);
+    Ok(PolicyRun { outcomes, obs, after_restart })
+}
+
+pub fn c14_leaf(env: &mut Env, leaf: &Leaf) {
+    env.stats.evaluations += 1;
+    // resolve the state-relative ops once, against the model
+    let mut model = Model::default();
+    let mut resolver = Resolver::new(default_names());
+    let mut cops = vec![];
+    for op in leaf.seed.ops.iter().chain(leaf.ops.iter().copied()) {
+        let cop = resolver.resolve(op, &model);
+        model.apply(&cop);
+        cops.push(cop);
+    }
+    let dir = env.scratch.path.clone();
+    let mut base: Option<PolicyRun> = None;
+    for policy in C14_CONFIGS {
+        env.scratch.reset();
+        env.stats.traces += 1;
+        env.stats.transitions += cops.len() as u64 + 1;
+        let res = guarded(|| run_under_policy(&dir, policy, &cops));
+        let run = match res {
+            Ok(Ok(r)) => r,
+            Ok(Err(e)) | Err(e) => {
+                env.stats.violation(Violation {
+                    property: "C14".into(),
+                    signature: "failure-under-policy".into(),
+                    what: format!("policy {}: {}", policy.name(), e),
+                    case: json!({"engine":"c14","seed_name":leaf.seed.name,"seed_ops":leaf.seed.ops,"ops":leaf.ops}),
+                });
+                return;
+            }
+        };
+        for o in &run.outcomes {
+            env.stats.outcome(o.label());
+        }
+        match &base {
+            None => {
+                env.stats.state(&(hash_of(&run.after_restart), cops.len()));
+                env.stats.nontrivial(&hash_of(&run.obs));
+                base = Some(run);
+            }
+            Some(b) => {
+                let mut diff: Option<String> = None;
+                for i in 0..cops.len() {
+                    if b.outcomes[i] != run.outcomes[i] {
+                        diff = Some(format!("op {} {:?}: {} returned {:?}, {} returned {:?}", i, cops[i].to_json().to_string(), C14_CONFIGS[0].name(), b.outcomes[i], policy.name(), run.outcomes[i]));
+                        break;
+                    }
+                    if b.obs[i] != run.obs[i] {
+                        diff = Some(format!("after op {} {}: observable state under {} is {} but under {} it is {}", i, cops[i].to_json(), C14_CONFIGS[0].name(), obs_summary(&b.obs[i]), policy.name(), obs_summary(&run.obs[i])));
+                        break;
+                    }
+                }
+                if diff.is_none() && b.after_restart != run.after_restart {
+                    diff = Some(format!("after drop + open: state under {} is {} but under {} it is {}", C14_CONFIGS[0].name(), obs_summary(&b.after_restart), policy.name(), obs_summary(&run.after_restart)));
+                }
+                if let Some(d) = diff {
+                    env.stats.violation(Violation {
+                        property: "C14".into(),
+                        signature: "policy-changes-behaviour".into(),
+                        what: d,
+                        case: json!({"engine":"c14","seed_name":leaf.seed.name,"seed_ops":leaf.seed.ops,"ops":leaf.ops,"policy":policy}),
+                    });
+                    return;
+                }
+            }
+        }
+    }
+}
+
+// ---------------------------------------------------------------------------------------------
+// C18: a history vs. its projection on one queue (metamorphic, no model verdict)
+
+fn q_obs(obs: &Obs, q: &str) -> Option<QObs> {
+    obs.get(q).cloned()
+}
+
+pub fn c18_leaf(env: &mut Env, leaf: &Leaf) {
+    env.stats.evaluations += 1;
+    let mut model = Model::default();
+    let mut resolver = Resolver::new(default_names());
+    let mut cops = vec![];
+    for op in leaf.seed.ops.iter().chain(leaf.ops.iter().copied()) {
+        let cop = resolver.resolve(op, &model);
+        model.apply(&cop);
+        cops.push(cop);
+    }
+    let dir = env.scratch.path.clone();
+    let dir2 = env.scratch2.path.clone();
+    let case = |q: &str| json!({"engine":"c18","seed_name":leaf.seed.name,"seed_ops":leaf.seed.ops,"ops":leaf.ops,"projected_on":q});
+    // full run
+    env.scratch.reset();
+    env.stats.traces += 1;
+    let full = guarded(|| -> Result<(Vec<Outcome>, Vec<Obs>, Obs), String> {
+        reset_hooks(0, false);
+        let mut subject = Subject::open(&dir, PolicyCfg::Default).map_err(|e| format!("open failed: {e}"))?;
+        let mut outs = vec![];
+        let mut obs = vec![];
+        for cop in &cops {
+            let (got, _) = subject.apply(cop);
+            outs.push(got);
+            obs.push(subject.observe());
+        }
+        // op-boundary crash: recover from a copy of the live directory
+        let image = read_image(&dir);
+        drop(subject);
+        set_image(&dir, &image);
+        let log = open_log(&dir, PolicyCfg::Default).map_err(|e| format!("recovery failed: {e}"))?;
+        Ok((outs, obs, observe(&log)))
+    });
+    let (f_outs, f_obs, f_crash) = match full {
+        Ok(Ok(x)) => x,
+        _ => {
+            env.stats.diverged += 1;
+            return;
+        }
+    };
+    env.stats.transitions += cops.len() as u64 + 1;
+    let names = default_names();
+    for q in [&names[QA as usize], &names[QB as usize]] {
+        let idxs: Vec<usize> = (0..cops.len())
+            .filter(|i| match cops[*i].queue() {
+                Some(name) => name == q,
+                None => true,
+            })
+            .collect();
+        if idxs.len() == cops.len() || !idxs.iter().any(|i| cops[*i].queue().is_some()) {
+            continue; // nothing removed, or nothing addressed to q
+        }
+        env.scratch2.reset();
+        env.stats.traces += 1;
+        let proj = guarded(|| -> Result<Option<String>, String> {
+            reset_hooks(0, false);
+            let mut subject = Subject::open(&dir2, PolicyCfg::Default).map_err(|e| format!("open failed: {e}"))?;
+            for i in &idxs {
+                let (got, _) = subject.apply(&cops[*i]);
+                if got != f_outs[*i] {
+                    return Ok(Some(format!("op {} {} returned {:?} in the full history but {:?} when the calls addressed to other queues are removed", i, cops[*i].to_json(), f_outs[*i], got)));
+                }
+                let obs = subject.observe();
+                if q_obs(&obs, q) != q_obs(&f_obs[*i], q) {
+                    return Ok(Some(format!("after op {} {}: queue {} is {:?} in the full history but {:?} when the calls addressed to other queues are removed", i, cops[*i].to_json(), q, q_obs(&f_obs[*i], q).map(|o| (o.recs.iter().map(|r| r.0).collect::<Vec<_>>(), o.last_pos)), q_obs(&obs, q).map(|o| (o.recs.iter().map(|r| r.0).collect::<Vec<_>>(), o.last_pos)))));
+                }
+            }
+            let image = read_image(&dir2);
+            drop(subject);
+            set_image(&dir2, &image);
+            let log = open_log(&dir2, PolicyCfg::Default).map_err(|e| format!("recovery failed: {e}"))?;
+            let crash = observe(&log);
+            if q_obs(&crash, q) != q_obs(&f_crash, q) {
+                return Ok(Some(format!("after recovering a copy of the live directory: queue {} is {:?} in the full history but {:?} in the projected one", q, q_obs(&f_crash, q).map(|o| (o.recs.iter().map(|r| r.0).collect::<Vec<_>>(), o.last_pos)), q_obs(&crash, q).map(|o| (o.recs.iter().map(|r| r.0).collect::<Vec<_>>(), o.last_pos)))));
+            }
+            Ok(None)
+        });
+        env.stats.transitions += idxs.len() as u64 + 1;
+        env.stats.count("projections_compared", 1);
+        env.stats.nontrivial(&(hash_of(&f_obs.last()), q.clone(), idxs.len()));
+        match proj {
+            Ok(Ok(None)) => {}
+            Ok(Ok(Some(what))) => {
+                env.stats.violation(Violation { property: "C18".into(), signature: "queue-affected-by-other-queue".into(), what, case: case(q) });
+                return;
+            }
+            Ok(Err(e)) | Err(e) => {
+                env.stats.violation(Violation { property: "C18".into(), signature: "failure-in-projected-run".into(), what: e, case: case(q) });
+                return;
+            }
+        }
+    }
+    env.stats.state(&(hash_of(&f_obs.last()), list_dir(&dir).len()));
+}
+
+// ---------------------------------------------------------------------------------------------
+// C17: foreign directory entries and numbering gaps (on the real file system)
+
+fn evil_wal_bytes() -> Vec<u8> {
+    // a valid WAL file content: create queue "evil" and append one record to it
+    let mut file = vec![0u8; FILE];
+    let mut e1 = vec![2u8];
+    e1.extend_from_slice(&0u64.to_le_bytes());
+    e1.extend_from_slice(&4u16.to_le_bytes());
+    e1.extend_from_slice(b"evil");
+    let f1 = crate::damage::crc_frame(1, &e1);
+    let mut e2 = vec![4u8];
+    e2.extend_from_slice(&0u64.to_le_bytes());
+    e2.extend_from_slice(&4u16.to_le_bytes());
+    e2.extend_from_slice(b"evil");
+    e2.extend_from_slice(&0u64.to_le_bytes());
+    e2.extend_from_slice(&3u32.to_le_bytes());
+    e2.extend_from_slice(b"bad");
+    let f2 = crate::damage::crc_frame(1, &e2);
+    file[..f1.len()].copy_from_slice(&f1);
+    file[f1.len()..f1.len() + f2.len()].copy_from_slice(&f2);
+    file
+}
+
+#[derive(Clone, Debug, PartialEq, Eq)]
+enum Foreign {
+    File(Vec<u8>),
+    Dir(Vec<(String, Vec<u8>)>),
+    Symlink(std::path::PathBuf),
+}
+
+fn foreign_entries(outside: &std::path::Path) -> Vec<(String, Foreign)> {
+    let evil = evil_wal_bytes();
+    vec![
+        ("wal-0000000000000000000".to_string(), Foreign::File(evil.clone())),
+        ("wal-000000000000000000000".to_string(), Foreign::File(evil.clone())),
+        ("wal-0000000000000000000x".to_string(), Foreign::File(evil.clone())),
+        ("wal-000000000000000000\u{0663}".to_string(), Foreign::File(evil.clone())),
+        ("WAL-00000000000000000000".to_string(), Foreign::File(evil.clone())),
+        ("wal-00000000000000000900".to_string(), Foreign::Dir(vec![("wal-00000000000000000000".to_string(), evil.clone())])),
+        ("wal-00000000000000000901".to_string(), Foreign::Symlink(outside.to_path_buf())),
+        (".wal-00000000000000000000".to_string(), Foreign::File(evil.clone())),
+        ("data.bin".to_string(), Foreign::File(vec![0x5a; 3 * FILE + 17])),
+        ("wal-+0000000000000000001".to_string(), Foreign::File(evil.clone())),
+        ("wal-00000000000000000000.tmp".to_string(), Foreign::File(evil.clone())),
+        ("xwal-0000000000000000000".to_string(), Foreign::File(evil.clone())),
+        ("wal-0000000000000000 001".to_string(), Foreign::File(evil.clone())),
+        ("wal--0000000000000000001".to_string(), Foreign::File(evil)),
+    ]
+}
+
+fn install_foreign(dir: &std::path::Path, entries: &[(String, Foreign)]) {
+    for (name, f) in entries {
+        let p = dir.join(name);
+        match f {
+            Foreign::File(bytes) => std::fs::write(&p, bytes).expect("write foreign file"),
+            Foreign::Dir(children) => {
+                std::fs::create_dir(&p).expect("create foreign dir");
+                for (c, bytes) in children {
+                    std::fs::write(p.join(c), bytes).expect("write foreign child");
+                }
+            }
+            Foreign::Symlink(target) => std::os::unix::fs::symlink(target, &p).expect("symlink"),
+        }
+    }
+}
+
+fn check_foreign(dir: &std::path::Path, entries: &[(String, Foreign)]) -> Result<(), String> {
+    for (name, f) in entries {
+        let p = dir.join(name);
+        let meta = std::fs::symlink_metadata(&p).map_err(|_| format!("foreign entry {:?} no longer exists", name))?;
+        match f {
+            Foreign::File(bytes) => {
+                if !meta.is_file() {
+                    return Err(format!("foreign file {:?} changed type", name));
+                }
+                let now = std::fs::read(&p).map_err(|e| e.to_string())?;
+                if &now != bytes {
+                    return Err(format!("foreign file {:?} was modified ({} -> {} bytes)", name, bytes.len(), now.len()));
+                }
+            }
+            Foreign::Dir(children) => {
+                if !meta.is_dir() {
+                    return Err(format!("foreign sub-directory {:?} changed type", name));
+                }
+                for (c, bytes) in children {
+                    let now = std::fs::read(p.join(c)).map_err(|_| format!("file {:?} inside foreign sub-directory {:?} is gone", c, name))?;
+                    if &now != bytes {
+                        return Err(format!("file {:?} inside foreign sub-directory {:?} was modified", c, name));
+                    }
+                }
+                let n = std::fs::read_dir(&p).map(|r| r.count()).unwrap_or(0);
+                if n != children.len() {
+                    return Err(format!("foreign sub-directory {:?} now holds {} entries", name, n));
+                }
+            }
+            Foreign::Symlink(target) => {
+                if !meta.file_type().is_symlink() {
+                    return Err(format!("foreign symlink {:?} changed type", name));
+                }
+                let now = std::fs::read_link(&p).map_err(|e| e.to_string())?;
+                if &now != target {
+                    return Err(format!("foreign symlink {:?} retargeted", name));
+                }
+                let tb = std::fs::read(target).map_err(|e| e.to_string())?;
+                if tb != evil_wal_bytes() {
+                    return Err(format!("the target of foreign symlink {:?} was modified", name));
+                }
+            }
+        }
+    }
+    Ok(())
+}
+
+pub struct RealDirs {
+    pub dir: Scratch,
+    pub outside: Scratch,
+}
+
+thread_local! {
+    static REAL_DIRS: std::cell::RefCell<Option<RealDirs>> = const { std::cell::RefCell::new(None) };
+}
+
+/// variant 0: directory pre-populated with foreign entries; variant 1: numbering gaps.
+pub fn c17_leaf(env: &mut Env, leaf: &Leaf, variant: usize) {
+    REAL_DIRS.with(|rd| {
+        let mut rd = rd.borrow_mut();
+        if rd.is_none() {
+            *rd = Some(RealDirs { dir: Scratch::with_mode(false), outside: Scratch::with_mode(false) });
+        }
+        let rd = rd.as_ref().unwrap();
+        rd.dir.reset();
+        rd.outside.reset();
+        let dir = rd.dir.path.clone();
+        let target = rd.outside.path.join("symlink-target.bin");
+        std::fs::write(&target, evil_wal_bytes()).expect("write symlink target");
+        env.stats.evaluations += 1;
+        env.stats.traces += 1;
+        let stats = &mut env.stats;
+        let res = guarded(|| c17_inner(stats, &dir, &target, leaf, variant));
+        let fail = match res {
+            Ok(Ok(())) => None,
+            Ok(Err(f)) => Some(f),
+            Err(p) => Some(("panic".to_string(), p)),
+        };
+        if let Some((sig, what)) = fail {
+            if sig == "diverged" {
+                env.stats.diverged += 1;
+                return;
+            }
+            env.stats.violation(Violation {
+                property: "C17".into(),
+                signature: sig,
+                what,
+                case: json!({"engine":"c17","variant": if variant == 0 {"foreign-entries"} else {"numbering-gaps"},"seed_name":leaf.seed.name,"seed_ops":leaf.seed.ops,"ops":leaf.ops}),
+            });
+        }
+    });
+}
+
+fn is_wal_name(name: &str) -> bool {
+    wal_number(name).is_some()
+}
+
+fn c17_inner(stats: &mut Stats, dir: &std::path::Path, target: &std::path::Path, leaf: &Leaf, variant: usize) -> Result<(), Fail> {
+    let foreign = if variant == 0 { foreign_entries(target) } else { vec![] };
+    install_foreign(dir, &foreign);
+    let foreign_names: Vec<&String> = foreign.iter().map(|f| &f.0).collect();
+    let mut run = Run::start(dir, PolicyCfg::Default, 0, true, default_names()).map_err(|e| ("open-failed".to_string(), e))?;
+    let mut all_events: Vec<Event> = std::mem::take(&mut run.open_events);
+    let seed_len = leaf.seed.ops.len();
+    let total = seed_len + leaf.ops.len();
+    let check_events = |events: &[Event], i: usize| -> Result<(), Fail> {
+        for e in events {
+            let (name, what) = match e {
+                Event::Open { name, create_new, is_dir, .. } => (name, if *is_dir { "" } else if *create_new { "created" } else { "opened" }),
+                Event::Unlink { name } => (name, "removed"),
+                Event::Read { name, .. } => (name, "read"),
+                Event::Write { name, .. } => (name, "written"),
+                Event::SetLen { name, .. } => (name, "resized"),
+                _ => continue,
+            };
+            if what.is_empty() {
+                continue;
+            }
+            if foreign_names.contains(&name) {
+                return fail("foreign-entry-touched", format!("step {}: foreign entry {:?} was {}", i, name, what));
+            }
+            if !is_wal_name(name) {
+                return fail("non-wal-name-touched", format!("step {}: a file named {:?} (not wal-<20 digits>) was {}", i, name, what));
+            }
+        }
+        Ok(())
+    };
+    check_events(&all_events, 0)?;
+    all_events.clear();
+    for i in 0..=total {
+        let is_final = i == total;
+        if variant == 1 && i == seed_len {
+            // renumber the WAL files with gaps (k -> 4k+2), with the log closed
+            run.subject.log = None;
+            let mut files: Vec<u64> = list_dir(dir).iter().filter_map(|f| wal_number(&f.0)).collect();
+            files.sort();
+            files.reverse();
+            for (k, n) in files.iter().enumerate() {
+                let rank = files.len() - 1 - k;
+                let new = n + 3 * rank as u64 + 2;
+                std::fs::rename(dir.join(wal_name(*n)), dir.join(wal_name(new))).expect("rename");
+            }
+            stats.count("gap_renumberings", 1);
+            match open_log(dir, PolicyCfg::Default) {
+                Ok(log) => run.subject.log = Some(log),
+                Err(e) => return fail("open-failed-with-numbering-gaps", format!("open failed on a WAL whose files are numbered with gaps: {}", e)),
+            }
+            let _ = vh::trace_take();
+            let obs = run.subject.observe();
+            if obs != model_obs(&run.model) {
+                return fail("state-lost-with-numbering-gaps", format!("after renumbering the WAL files with gaps the log yields {} instead of {}", obs_summary(&obs), obs_summary(&model_obs(&run.model))));
+            }
+        }
+        let op_final = Op::Reopen;
+        let op: &Op = if is_final { &op_final } else if i < seed_len { &leaf.seed.ops[i] } else { leaf.ops[i - seed_len] };
+        let rec = run.step(op);
+        stats.transitions += 1;
+        if i >= seed_len {
+            stats.outcome(rec.got.label());
+        }
+        check_events(&rec.events, i)?;
+        if rec.events.iter().any(|e| matches!(e, Event::Unlink { .. })) {
+            stats.count("calls_deleting_wal_files", 1);
+        }
+        if rec.events.iter().any(|e| matches!(e, Event::Open { create_new: true, is_dir: false, .. })) {
+            stats.count("calls_creating_wal_files", 1);
+        }
+        let heavy = is_final || (i >= seed_len && i - seed_len >= leaf.heavy_from) || matches!(rec.got, Outcome::Reopened);
+        if heavy {
+            check_foreign(dir, &foreign).map_err(|e| ("foreign-entry-changed".to_string(), format!("step {} {}: {}", i, op.short(), e)))?;
+            let obs = run.subject.observe();
+            if obs.contains_key("evil") {
+                return fail("foreign-entry-read-as-log-data", format!("step {} {}: queue \"evil\", which only exists inside foreign directory entries, appeared in the log", i, op.short()));
+            }
+            stats.nontrivial(&(hash_of(&obs), list_dir(dir).len(), variant, rec.got.label()));
+            stats.state(&(hash_of(&obs), list_dir(dir).iter().map(|f| f.0.clone()).collect::<Vec<_>>()));
+            if matches!(rec.got, Outcome::Reopened) && obs != model_obs(&run.model) {
+                if variant == 1 {
+                    return fail("state-lost-with-numbering-gaps", format!("step {} {}: after restart the log yields {} instead of {}", i, op.short(), obs_summary(&obs), obs_summary(&model_obs(&run.model))));
+                }
+                return fail("diverged", String::new());
+            }
+        }
+        if rec.got != rec.expected {
+            return fail("diverged", String::new());
         }
     }
     Ok(())
